@@ -15,7 +15,10 @@ RULE = ("in-process: scripting::expand_args on every C01-style command (all argu
 
 LINES = ["argv \"a\\\\\\\"b c\" && argv 'done'", "argv \"x\\\\\" y", "argv 'a b' \"c d\"", "argv 'x;y' ; argv z", "argv a && argv 'b && c' || argv d", "argv \"e && f\"", "argv '|' | cat", "argv a > out1 ; argv b >> out1",
          "argv \"$HOME\" '$HOME'", "argv {a,b}c", "argv ~", "argv a\\ b", "argv g\;h", "argv '#' # c", "argv \"a'b\" 'c\"d'", "argv '' \"\"", "false ; argv $?",
-         "argv é 'ü ö'", "argv a   b", "argv '  sp  '", "argv \\$HOME", "argv \"x\\\"y\"", "argv 2>&1 > out2", "argv 'a' 'b' 'c' ; argv \"1\" \"2\""]
+         "argv é 'ü ö'", "argv a   b", "argv '  sp  '", "argv \\$HOME", "argv \"x\\\"y\"", "argv 2>&1 > out2", "argv 'a' 'b' 'c' ; argv \"1\" \"2\"",
+         # a word that is a backquote substitution is not subject to the script path's positional pass: `$1`, `${2}`, `$@` inside it
+         # belong to the inner command (an awk / printf program)
+         "argv `printf %s 'a$1b'`", "argv `printf %s 'x${2}y' '$@'` z", "argv w `printf '%s-' '$1' '$2'`"]
 
 
 def generate(tier, rng):
